@@ -514,6 +514,11 @@ func path(v ssa.Value, depth int, seen map[ssa.Value]bool) string {
 	case *ssa.Index:
 		return path(x.X, depth+1, seen) + "[" + path(x.Index, depth+1, seen) + "]"
 	case *ssa.Lookup:
+		// m[k] with k the key variable of a range over the same map reads the range's value: `for k := range m { v := m[k] }`
+		// is `for _, v := range m` (as long as the loop does not write m, which the rules about such loops check anyway)
+		if nx := RangeKeyOf(x); nx != nil && !x.CommaOk {
+			return path(nx, depth+1, seen) + "#2"
+		}
 		return path(x.X, depth+1, seen) + "[" + path(x.Index, depth+1, seen) + "]"
 	case *ssa.Slice:
 		s := path(x.X, depth+1, seen)
@@ -758,7 +763,7 @@ func mergedComparison(b *ssa.BasicBlock, iff *ssa.If) (Cond, bool) {
 	if neg {
 		c.Op = NegateOp(c.Op)
 	}
-	return c, true
+	return c.canonical(), true
 }
 
 func DecomposeCond(iff *ssa.If) Cond {
@@ -781,11 +786,48 @@ func DecomposeCond(iff *ssa.If) Cond {
 			if neg {
 				c.Op = NegateOp(c.Op)
 			}
-			return c
+			return c.canonical()
 		}
 	}
 	c.Op, c.X, c.Neg = token.ILLEGAL, v, neg
 	return c
+}
+
+// canonical puts a constant operand on the right (`0 == len(x)` and `nil != err` read like `len(x) == 0`, `err != nil`):
+// the rules are written for that order.
+func (c Cond) canonical() Cond {
+	_, xc := rawStrip(c.X).(*ssa.Const)
+	_, yc := rawStrip(c.Y).(*ssa.Const)
+	if xc && !yc {
+		c.X, c.Y = c.Y, c.X
+		c.Op = MirrorOp(c.Op)
+		return c
+	}
+	return c
+}
+
+func isLenCall(v ssa.Value) bool {
+	call, ok := rawStrip(v).(*ssa.Call)
+	if !ok {
+		return false
+	}
+	b, ok := call.Common().Value.(*ssa.Builtin)
+	return ok && b.Name() == "len"
+}
+
+// MirrorOp: X op Y  <=>  Y MirrorOp(op) X.
+func MirrorOp(op token.Token) token.Token {
+	switch op {
+	case token.LSS:
+		return token.GTR
+	case token.GTR:
+		return token.LSS
+	case token.LEQ:
+		return token.GEQ
+	case token.GEQ:
+		return token.LEQ
+	}
+	return op
 }
 
 func NegateOp(op token.Token) token.Token {
@@ -1497,4 +1539,41 @@ func CondsBetween(fn *ssa.Function, from, to ssa.Instruction) []Cond {
 		}
 	}
 	return out
+}
+
+
+// RangeKeyOf: lk = m[k] where k is the key produced by a range over the same map m; returns that range's Next.
+func RangeKeyOf(lk *ssa.Lookup) *ssa.Next {
+	ex, ok := Resolve(lk.Index).(*ssa.Extract)
+	if !ok || ex.Index != 1 {
+		return nil
+	}
+	nx, ok := ex.Tuple.(*ssa.Next)
+	if !ok || nx.IsString {
+		return nil
+	}
+	rg, ok := nx.Iter.(*ssa.Range)
+	if !ok {
+		return nil
+	}
+	if _, isMap := rg.X.Type().Underlying().(*types.Map); !isMap {
+		return nil
+	}
+	a, b := Resolve(rg.X), Resolve(lk.X)
+	if a == b {
+		return nx
+	}
+	// two loads of the same field
+	if Path(a) != "" && pathNoLookup(a) == pathNoLookup(b) {
+		return nx
+	}
+	return nil
+}
+
+// pathNoLookup renders an access path of a map operand (a field load or a call result) without entering RangeKeyOf again.
+func pathNoLookup(v ssa.Value) string {
+	if _, isLk := v.(*ssa.Lookup); isLk {
+		return ""
+	}
+	return Path(v)
 }
